@@ -34,3 +34,4 @@ def check(ctx):
     ctx.floor("GRADPATH", 30)
     ctx.floor("AUTOGRAD", 10)
     kernels.pchip_evaluation(ctx)
+    grad.backward_covers_every_qubit(ctx)
